@@ -1,4 +1,5 @@
 import BeffVerif.Props.C16
+import BeffVerif.Props.C16Order
 open BeffVerif.C16
 #print axioms store_keeps
 #print axioms store_defines
@@ -6,3 +7,9 @@ open BeffVerif.C16
 #print axioms getRef_deterministic
 #print axioms throwing_definition_not_left_in_progress
 #print axioms synthetic_names_collide
+#print axioms BeffVerif.C16O.schema_value_independent
+#print axioms BeffVerif.C16O.schema_preserves_good
+#print axioms BeffVerif.C16O.definitions_agree
+#print axioms BeffVerif.C16O.good_runCalls
+#print axioms BeffVerif.C16O.export_order_independent
+#print axioms BeffVerif.C16O.functional_of_no_union
